@@ -199,7 +199,7 @@ Definition set_msgs (m : mem) x := mkMem (m_vals m) (m_rounds m) (m_workers m) x
 Definition set_panic (m : mem) := mkMem (m_vals m) (m_rounds m) (m_workers m) (m_msgs m) (m_cvals m) (m_vupd m) true.
 
 (* ---- FillPrice ----------------------------------------------------------------------------------- *)
-Inductive fill_res := FIgnored | FAdded (it : item) | FFinal (price roundid : Z).
+Inductive fill_res := FIgnored | FAdded (it : item) | FFinal (price roundid : Z) (it : item).
 
 Definition fill_price (p : params) (m : mem) (fid v nonce : Z) (ps : list (Z * Z)) : mem * fill_res :=
   let w := match aget fid (m_workers m) with Some w => w | None => new_worker (m_vals m) end in
@@ -216,7 +216,7 @@ Definition fill_price (p : params) (m : mem) (fid v nonce : Z) (ps : list (Z * Z
             match aget fid (m_rounds m1) with
             | Some r =>
                 let m2 := set_rounds m1 (aset fid (mkRound (r_based r) (r_next r) false) (m_rounds m1)) in
-                (set_workers m2 (aset fid sealed_worker (m_workers m2)), FFinal price (r_next r))
+                (set_workers m2 (aset fid sealed_worker (m_workers m2)), FFinal price (r_next r) (mkItem fid v kl))
             | None => (set_panic m1, FIgnored)      (* nil dereference of agc.rounds[feederID] *)
             end
         | None => (m1, FAdded (mkItem fid v kl))
@@ -366,19 +366,20 @@ Definition deliver (p : params) (st : state) (t : tx) : state * Z :=
         match res with
         | FIgnored => (mkState (st_h st) s1 m1, 3)
         | FAdded it => (mkState (st_h st) s1 (set_msgs m1 (m_msgs m1 ++ [it])), 0)
-        | FFinal price rid =>
+        | FFinal price rid it =>
             let s2 := set_next s1 (append_price (token_of p (t_feeder t)) price rid (s_next s1)) in
             let s3 := set_nonce s2 (nonce_remove (t_feeder t) (m_vals m1) (s_nonce s2)) in
-            let m2 := set_msgs m1 (filter (fun it => negb (i_feeder it =? t_feeder t)) (m_msgs m1)) in
+            (* cs.RemoveCache: every cached message of this feeder is dropped, the finalizing one is never cached *)
+            let m2 := set_msgs m1 (filter (fun x => negb (i_feeder x =? t_feeder t)) (m_msgs m1)) in
             (mkState (st_h st) s3 m2, 0)
         end
   end.
 
-(* cacheMsgs.commit: prune the index/window, append this block *)
+(* cacheMsgs.commit: prune the index/window (blocks <= h - MaxNonce go; nothing goes while h < MaxNonce), append this block *)
 Definition commit_msgs (maxnonce h : Z) (items : list item) (w : list (Z * list item)) : list (Z * list item) :=
   match items with
   | [] => w
-  | _ => filter (fun e => if h <? maxnonce then false else h - maxnonce <? fst e) w ++ [(h, items)]
+  | _ => filter (fun e => h - maxnonce <? fst e) w ++ [(h, items)]
   end.
 
 (* oracle EndBlock of block h; vu = Some new validator set when dogfood emitted validator updates *)
@@ -393,7 +394,8 @@ Definition end_block (p : params) (st : state) (vu : option (list (Z * Z))) : st
     | None => (m, false, s)
     end in
   let '(m2, failed, sealed) := seal p h force m1 in
-  let ns1 := fold_left (fun acc fid => nonce_remove fid (m_vals m2) acc) sealed (s_nonce s0) in
+  (* RemoveNonceWithFeederIDForAll: the feeder's entry goes from EVERY stored nonce row, also of validators that left the set *)
+  let ns1 := fold_left (fun acc fid => nonce_remove fid (map (fun e => (fst e, 0)) acc) acc) sealed (s_nonce s0) in
   let nx1 := fold_left (fun acc tok => grow_round tok acc) failed (s_next s0) in
   let msgs1 := commit_msgs (p_maxnonce p) h (m_msgs m2) (s_msgs s0) in
   let vub1 := if m_vupd m2 then Some h else s_vub s0 in
@@ -405,27 +407,31 @@ Definition end_block (p : params) (st : state) (vu : option (list (Z * Z))) : st
 (* ---- recacheAggregatorContext -------------------------------------------------------------------- *)
 Definition empty_mem (vals : list (Z * Z)) : mem := mkMem vals [] [] [] vals false false.
 
-Definition replay_block (p : params) (msgs : list (Z * list item)) (m : mem) (b : Z) : mem :=
+(* one replayed block. [forced] = the block of the last validator-set change when it lies in the window: it is replayed
+   without its messages but with the forced seal. Replayed messages get distinct negative nonces (MsgItem keeps none). *)
+Definition replay_block (p : params) (msgs : list (Z * list item)) (forced : option Z) (acc : mem * Z) (b : Z) : mem * Z :=
+  let '(m, n) := acc in
+  let isf := match forced with Some v => b =? v | None => false end in
   let '(m1, _) := prepare p (b - 1) m in
-  let m2 := fold_left (fun acc it => fst (fill_price p acc (i_feeder it) (i_val it) 0 (i_prices it)))
-                      (match aget b msgs with Some l => l | None => [] end) m1 in
-  let '(m3, _, _) := seal p b false m2 in
-  m3.
+  let items := if isf then [] else match aget b msgs with Some l => l | None => [] end in
+  let '(m2, n2) := fold_left (fun (a : mem * Z) it => (fst (fill_price p (fst a) (i_feeder it) (i_val it) (snd a - 1) (i_prices it)), snd a - 1))
+                             items (m1, n) in
+  let '(m3, _, _) := seal p b isf m2 in
+  (m3, n2).
 
 Fixpoint zrange (from : Z) (n : nat) : list Z :=
   match n with O => [] | S k => from :: zrange (from + 1) k end.
 
-(* hh = height of the block whose BeginBlock triggers the rebuild. The window start is computed from the package
-   variable common.MaxNonce BEFORE the params are loaded (setCommonParams runs later, inside the loop): in a fresh
-   process that is the compile-time default 3, whatever the chain's params say. *)
-Definition default_maxnonce : Z := 3.
+(* hh = height of the block whose BeginBlock triggers the rebuild; the window is MaxNonce blocks of the STORED params *)
 Definition recache (p : params) (s : store) (hh : Z) : mem :=
-  let from0 := hh - default_maxnonce + 1 in
-  let from := match s_vub s with Some v => if from0 <=? v then v + 1 else from0 | None => from0 end in
+  let from0 := hh - p_maxnonce p + 1 in
+  let '(from, forced) := match s_vub s with
+                         | Some v => if from0 <=? v then (v, Some v) else (from0, None)
+                         | None => (from0, None) end in
   let m0 := empty_mem (s_vals s) in
   if hh <=? from then m0
   else
-    let m1 := fold_left (replay_block p (s_msgs s)) (zrange from (Z.to_nat (hh - from))) m0 in
+    let m1 := fst (fold_left (replay_block p (s_msgs s) forced) (zrange from (Z.to_nat (hh - from))) (m0, 0)) in
     fst (prepare p (hh - 1) m1).
 
 Definition restart (p : params) (st : state) : state :=
